@@ -17,7 +17,10 @@ ID = "C10"
 WORKERS = {"quick": 8, "thorough": 16}
 SHRINK_KEY = ["ops", "edges"]
 RULE = (
-    "two case kinds. kind=graph: a digraph of shared-reward dependencies (edge i->j: agent i has a shared-reward "
+    "three case kinds. kind=unit: a webpage-unavailable / green-admin-database-unreachable component (sticky or not) "
+    "fed every sequence up to length 3 (thorough: 4) over {no own request, own execute request answered success / "
+    "failure / unreachable / pending} with the state a simulation shows in that situation; non-trivial = contains an "
+    "unreachable or pending answer. kind=graph: a digraph of shared-reward dependencies (edge i->j: agent i has a shared-reward "
     "component naming agent j; self-loops allowed) over n scripted do-nothing agents on an empty network, declared in a "
     "given order; enumerated exhaustively (all digraphs incl. self-loops on <=3 agents under all declaration orders; "
     "thorough adds all 4096 loop-free digraphs on 4 agents under 8 of the 24 orders each plus every one of them with "
@@ -25,7 +28,9 @@ RULE = (
     "order not already dependencies-first); distinct by (n, edges, order). kind=run: a LAN with a web server, a "
     "database server and one client host per agent (2-4 agents: ag0 = proxy/RL agent, others probabilistic agents whose "
     "RNG is replaced by a scripted choice), generated reward configs (0-5 components per agent from all 7 shipped "
-    "types, weights incl. 0/negative/omitted, sticky true/false/omitted, acyclic sharing), a declaration order, and an "
+    "types, weights incl. 0/negative/omitted, sticky true/false/omitted, acyclic sharing; a watched application may be "
+    "missing from a host from the start or be uninstalled/re-installed by ag0 so that own execute requests are answered "
+    "`unreachable` as well as `failure`), a declaration order, and an "
     "op list of steps (one action index per agent) and resets. Non-trivial run case = sharing chain of depth >=2 AND "
     "declaration order not already dependencies-first AND some agent's reward differs between two consecutive steps; "
     "distinct by case hash."
@@ -38,8 +43,12 @@ ASSUMPTIONS = [
     "sticky reference (docs/source/rewards.rst + component docstrings): value changes only on a qualifying event "
     "(web-server-404: the web server produced response codes this step -> mean of +1 for 200 / -1 for 404 / 0 otherwise; "
     "webpage-unavailable / green-admin-database-unreachable: the agent's own execute request for that application on "
-    "the configured host -> +1 if the response status is success else -1); without an event sticky keeps the last "
-    "value and non-sticky returns 0; with the sticky flag omitted only event steps are checked",
+    "the configured host, for all four response statuses: success -> +1, failure / unreachable -> -1, pending -> not "
+    "positive (positive only on success)); without an event sticky keeps the last "
+    "value and non-sticky returns 0; with the sticky flag omitted only event steps are checked; while the watched "
+    "application is not installed a sticky webpage-unavailable-penalty may keep its value or drop to 0 (docs silent)",
+    "`pending` cannot be produced for an application execute request by the simulator (its handlers answer through "
+    "RequestResponse.from_bool), so that status is exercised at component level only (kind=unit)",
     "the metamorphic relation is asserted only for 'iso' cases, in which every agent's actions touch only its own client "
     "host (browser / db-client execute, own NIC off/on) so the order in which agents act cannot matter",
     "any exception from PrimaiteGame.from_config on a cyclic sharing graph counts as rejection",
@@ -177,6 +186,34 @@ class _Recorder:
         for cls, orig in self._saved:
             setattr(cls, "calculate", orig)
         self._saved = []
+
+
+STATUSES = ["success", "failure", "unreachable", "pending"]
+
+
+def action_component_ref(status: Optional[str], sticky: Optional[bool], mem: float, app_absent: bool, absent_resets: bool):
+    """Reference for the two components driven by the agent's own execute request (rewards.rst + docstrings).
+
+    status = response status of the own execute request this step, None when there was no such request.
+    Rule: positive only on success: success -> +1, failure / unreachable -> -1, pending -> not positive (the docs name
+    no value for an unresolved request: 0 and -1 are both accepted). No request: sticky keeps the last value (a component
+    that reads the application's state may alternatively drop to 0 while that application is not installed, the docs
+    are silent), non-sticky returns 0, flag omitted -> unchecked.
+    Returns (event label, predicate on v, text of what was expected).
+    """
+    if status is not None:
+        if status == "success":
+            return "event-success", (lambda v: _close(v, 1.0)), "1.0"
+        if status == "pending":
+            return "event-pending", (lambda v: v <= 0.0), "<= 0"
+        return f"event-{status}", (lambda v: _close(v, -1.0)), "-1.0"
+    if sticky is None:
+        return "noevent", (lambda v: True), "unchecked"
+    if sticky:
+        if app_absent and absent_resets:
+            return "noevent", (lambda v: _close(v, mem) or v == 0.0), f"{mem!r} or 0.0 (application absent)"
+        return "noevent", (lambda v: _close(v, mem)), repr(mem)
+    return "noevent", (lambda v: v == 0.0), "0.0"
 
 
 def _own_request(host: str, app: str) -> List[str]:
@@ -337,24 +374,27 @@ def play(case: Dict, order: List[int], res: CaseResult, tag: str = "") -> Option
                     elif t in ("webpage-unavailable-penalty", "green-admin-database-unreachable-penalty"):
                         key = (nm, ci)
                         app = "web-browser" if t == "webpage-unavailable-penalty" else "database-client"
-                        event = list(last.request) == _own_request(S.host_name(cc["host"]), app)
+                        hname = S.host_name(cc["host"])
+                        event = list(last.request) == _own_request(hname, app)
+                        status = last.response.status if event else None
+                        node = game.simulation.network.get_node_by_hostname(hname)
+                        absent = node.software_manager.software.get(app) is None
+                        mem = memory.get(key, 0.0)
+                        ev, ok, exp_txt = action_component_ref(status, sticky, mem, absent, t == "webpage-unavailable-penalty")
                         if event:
-                            exp = 1.0 if last.response.status == "success" else -1.0
-                            ev = "event"
                             stats["events"] += 1
-                        elif sticky is None:
-                            exp, ev = None, "noevent"
-                        elif sticky:
-                            exp, ev = memory.get(key, 0.0), "noevent"
-                            if exp != 0:
-                                stats["sticky_holds"] += 1
-                        else:
-                            exp, ev = 0.0, "noevent"
-                        if exp is not None and not _close(v, exp):
+                            stats["status:" + status] = stats.get("status:" + status, 0) + 1
+                        elif sticky and mem != 0:
+                            stats["sticky_holds"] += 1
+                        if not ok(v):
                             viol(f"sticky-model:{t}:{skey}:{ev}",
-                                        f"{when}: {nm}#{ci} host={S.host_name(cc['host'])} last action {last.action} "
-                                        f"{list(last.request)} -> {last.response.status}: returned {v!r}, reference {exp!r}")
-                        memory[key] = v if exp is None else exp
+                                        f"{when}: {nm}#{ci} host={hname} last action {last.action} "
+                                        f"{list(last.request)} -> {last.response.status}: returned {v!r}, reference {exp_txt}")
+                            # the reference's memory follows the reference where it names one value
+                            memory[key] = {"event-success": 1.0, "event-failure": -1.0, "event-unreachable": -1.0}.get(
+                                ev, 0.0 if (ev == "event-pending" or not sticky) else mem)
+                        else:
+                            memory[key] = v
                 # weighted sum
                 if not _close(rf.current_reward, total, scale):
                     viol("reward-not-weighted-sum", f"{when}: {nm} current_reward={rf.current_reward!r}, sum(w*v)={total!r}")
@@ -414,6 +454,9 @@ def run_run(case: Dict) -> CaseResult:
         res.label("run:sticky-held-nonzero")
     if stt["nonzero_shared"]:
         res.label("run:nonzero-shared-value")
+    for st_ in STATUSES:
+        if stt.get("status:" + st_):
+            res.label("run:own-execute-" + st_)
     if case.get("iso") and case.get("order2"):
         order2 = list(case["order2"])
         res2 = CaseResult()
@@ -439,9 +482,84 @@ def run_run(case: Dict) -> CaseResult:
     return res
 
 
+# ---------------------------------------------------------------------------------------------------------------------
+# kind = unit: the two action-triggered components against every response status of the triggering action
+
+
+def run_unit(case: Dict) -> CaseResult:
+    """ops = sequence over {"none"} + STATUSES: what the agent's own execute request for the watched application was
+    answered with in that step ("none" = the agent did something else). The state handed to the component is what a
+    simulation shows in that situation: the browser history persists, gains a 200 / 404 / PENDING entry on success /
+    failure / pending, and the application is missing from the node in a step answered `unreachable` (re-installed
+    with an empty history afterwards)."""
+    from primaite.game.agent.interface import AgentHistoryItem
+    from primaite.game.agent.rewards import AbstractReward
+    from primaite.interface.request import RequestResponse
+
+    res = CaseResult()
+    t, sticky, host = case["type"], case["sticky"], "c0"
+    app = "web-browser" if t == "webpage-unavailable-penalty" else "database-client"
+    skey = "sticky" if sticky else "nonsticky"
+    cls = AbstractReward._registry[t]
+    try:
+        comp = cls(config=cls.ConfigSchema(node_hostname=host, sticky=sticky))
+    except Exception as e:
+        res.violate(f"raise:unit-build:{exc_sig(e)}", exc_msg(e))
+        return res
+    hist: List[Dict] = []
+    mem = 0.0
+    for i, op in enumerate(case["ops"]):
+        status = None if op == "none" else op
+        absent = status == "unreachable"
+        if status == "success":
+            hist.append({"url": "u", "outcome": 200})
+        elif status == "failure":
+            hist.append({"url": "u", "outcome": 404})
+        elif status == "pending":
+            hist.append({"url": "u", "outcome": "PENDING"})
+        elif absent:
+            hist = []
+        apps = {} if absent else {app: {"history": list(hist)} if app == "web-browser" else {}}
+        state = {"network": {"nodes": {host: {"applications": apps}}}}
+        if status is None:
+            item = AgentHistoryItem(timestep=i, action="do-nothing", parameters={}, request=["do-nothing"],
+                                    response=RequestResponse(status="success", data={}))
+        else:
+            item = AgentHistoryItem(timestep=i, action="node-application-execute",
+                                    parameters={"node_name": host, "application_name": app},
+                                    request=_own_request(host, app), response=RequestResponse(status=status, data={}))
+        try:
+            v = comp.calculate(state, item)
+        except Exception as e:
+            res.violate(f"raise:unit:{t}:{exc_sig(e)}", f"op#{i} {op}: {exc_msg(e)}")
+            break
+        ev, ok, exp_txt = action_component_ref(status, sticky, mem, absent, t == "webpage-unavailable-penalty")
+        if not ok(v):
+            res.violate(f"sticky-model:{t}:{skey}:{ev}", f"unit ops={case['ops']} op#{i} {op}: returned {v!r}, reference {exp_txt}")
+            break
+        mem = v
+    res.label("unit:" + t)
+    for st_ in STATUSES:
+        if st_ in case["ops"]:
+            res.label("unit:status-" + st_)
+    res.nontrivial = ("u", t, sticky, tuple(case["ops"])) if any(o in ("unreachable", "pending") for o in case["ops"]) else False
+    return res
+
+
+def unit_cases(tier: str):
+    alphabet = ["none"] + STATUSES
+    for t in ("green-admin-database-unreachable-penalty", "webpage-unavailable-penalty"):
+        for sticky in (True, False):
+            for depth in range(1, 4 if tier == "quick" else 5):
+                for ops in itertools.product(alphabet, repeat=depth):
+                    yield {"kind": "unit", "type": t, "sticky": sticky, "ops": list(ops)}
+
+
 def run_case(case: Dict) -> CaseResult:
     if case.get("kind") == "graph":
         return run_graph(case)
+    if case.get("kind") == "unit":
+        return run_unit(case)
     return run_run(case)
 
 
@@ -494,7 +612,9 @@ def run_case_strategy(draw, max_ops: int = 30):
         allc = list(draw(st.permutations(allc))) if allc else []
         agents.append({"comps": allc})
     hosts = [{"url": draw(st.sampled_from(["users", "users", "index", "missing", "dead"])),
-              "pw": draw(st.sampled_from([True, True, True, False]))} for _ in range(n)]
+              "pw": draw(st.sampled_from([True, True, True, False])),
+              "noapp": draw(st.sampled_from([None, None, None, None, None, "database-client", "web-browser"]))}
+             for _ in range(n)]
     dbpw = draw(st.sampled_from([None, "pw"]))
     order = list(draw(st.permutations(list(range(n)))))
     order2 = list(draw(st.permutations(list(range(n))))) if iso else None
@@ -554,9 +674,11 @@ def big_graph_strategy(draw):
 
 def worker(ctx: Ctx):
     q = ctx.tier == "quick"
+    enum_run(ctx, unit_cases(ctx.tier), run_case)
     enum_run(ctx, graph_cases(ctx.tier), run_case)
     ctx.extra["exhaustive"] = True
     ctx.extra["exhaustive_domain"] = (
+        f"unit: 2 components x sticky/non-sticky x all sequences up to length {3 if q else 4} over 5 per-step situations; "
         "sharing digraphs incl. self-loops on 1..3 agents x all declaration orders (2 + 32 + 3072 games)"
         + ("" if q else "; all 4096 loop-free digraphs on 4 agents x 8 of 24 declaration orders + each with one self-loop (36864 games)")
     )
